@@ -18,13 +18,17 @@ def gen_file(rng, code=None, nshapes=None, profile="mixed", max_parts=4, max_pts
     return {"code": code, "specs": [shapes.gen_ctor(rng, code, profile, True, max_parts, max_pts) for _ in range(n)]}
 
 
-def finalize_placements(rng, n):
-    """Calls with finalize at random places: list of ('w', i) / ('f',)."""
+def finalize_placements(rng, n, rejected=None):
+    """Calls with finalize at random places: list of ('w', i) / ('f',); with
+    rejected = (probability, spec of a shape of another type) also ('x', spec)
+    after the first write (a write the writer must refuse)."""
     calls = []
     for i in range(n):
         if rng.random() < 0.25:
             calls.append(("f",))
         calls.append(("w", i))
+        if rejected and rng.random() < rejected[0]:
+            calls.append(("x", rejected[1]))
     if rng.random() < 0.3:
         calls.append(("f",))
     return calls
@@ -51,7 +55,8 @@ def run_write_stage(rep, binary, files, tag, has_shx=True, model=True):
     cs = []
     for f in files:
         calls = f.get("calls") or [("w", i) for i in range(len(f["specs"]))]
-        wire_calls = [("w", f["specs"][c[1]]) if c[0] == "w" else c for c in calls]
+        # ("w", i): shape i of the file; ("x", spec): a shape of another type (to be rejected); ("f",): finalize
+        wire_calls = [("w", f["specs"][c[1]]) if c[0] == "w" else (("w", c[1]) if c[0] == "x" else c) for c in calls]
         cs.append(C.whist_case(f.get("has_shx", has_shx), f.get("ending", 0), wire_calls))
     impl = stages.correspondence(rep, tag + "_whist", binary, cs, "whist", model=model)
     for f, r in zip(files, impl):
